@@ -99,6 +99,11 @@ def alterations(tier: str, sealed_len: int, body_len: int, sign: bool) -> t.List
                 alts.append((f"forged:level{level}:{body}:{sigkind}", ("forged", level, body, sigkind)))
                 for aty in (0, 9, 16, 255):  # ... and another authentication service (0 = none)
                     alts.append((f"forged:level{level}:{body}:{sigkind}:type{aty}", ("forged", level, body, sigkind, aty)))
+    # an unsealed "first fragment" (PFC_LAST_FRAG clear, no trailer) put in front of the untouched authentic reply
+    for body in ("evil-other", "genuine"):
+        for first_flags in (0x01, 0x00, 0x81):
+            for auth_flags in (None, 0x02, 0x00):
+                alts.append((f"prefrag:{body}:{first_flags:#x}:{auth_flags}", ("prefrag", body, first_flags, auth_flags)))
     # trailer-less replies whose 16-bit auth_length is not 0 but has the top bit set / is maximal, followed by 0..16 stray octets
     for av in (0x7FFF, 0x8000, 0x8001) + tuple(range(0xFFF0, 0x10000)):
         for tail in range(0, 17):
@@ -133,6 +138,15 @@ def apply(desc, sealed: bytes, info: dict, st: dict, op: str, sd: bytes) -> byte
         b = bytearray(sealed)
         b[desc[1] // 8] ^= 1 << (desc[1] % 8)
         return bytes(b)
+    if k == "prefrag":
+        _, which, first_flags, auth_flags = desc
+        body = info["plain_stub"] if which == "genuine" else evil_stub(st, "other", op, sd)
+        first = bytearray(strip_trailer(sealed, info, body))
+        first[3] = first_flags
+        rest = bytearray(sealed)
+        if auth_flags is not None:
+            rest[3] = auth_flags
+        return bytes(first) + bytes(rest)
     if k == "authlen":
         _, av, tail, which = desc
         body = info["plain_stub"] if which == "genuine" else evil_stub(st, "other", op, sd)
@@ -267,7 +281,7 @@ def judge(seed: int, op: str, api: str, sign: bool, name: str, desc, acc) -> Non
         acc.violate("harness.reply-not-reached", case, {"status": status, "value": repr(v)[:200]})
         return
     acc.nt(("alt", op, api, sign, name))
-    unsealed = desc is not None and desc[0] in ("notrailer", "notrailer-callid", "notrailer-flags", "forged", "authlen")
+    unsealed = desc is not None and desc[0] in ("notrailer", "notrailer-callid", "notrailer-flags", "forged", "authlen", "prefrag")
     if status == "spin":
         acc.violate("spin", case, {"detail": v})
         return
@@ -435,7 +449,7 @@ def run_rpc_level(seed: int, api: str, sign: bool, desc, name: str, acc) -> None
         acc.violate("rpc.signed-header-or-trailer-alteration-accepted", case, {"alteration": name, "byte_offset": touched, "region": "header" if touched < 24 else "security trailer"}, size=len(name))
     elif bytes(r.stub_data) != sealed_plain:
         acc.violate("rpc.stub-differs-from-sealed-plaintext", case, {"returned_len": len(r.stub_data), "sealed_len": len(sealed_plain), "returned_head": bytes(r.stub_data)[:24].hex(), "sealed_head": sealed_plain[:24].hex()}, size=len(name))
-    elif desc is not None and desc[0] in ("notrailer", "notrailer-callid", "notrailer-flags", "forged", "authlen"):
+    elif desc is not None and desc[0] in ("notrailer", "notrailer-callid", "notrailer-flags", "forged", "authlen", "prefrag"):
         acc.violate("rpc.unsealed-accepted", case, {"alteration": name}, size=len(name))
     elif sign and (r.sec_trailer is None or r.sec_trailer.pad_length != seen["info"]["pad"]):
         # only with header signing is the trailer (and its pad_length) protected; without it the property does not demand rejection
@@ -499,6 +513,141 @@ def run_stub_shapes(seed: int, acc) -> int:
                         else:
                             acc.outcome("stub-shape-rejected")
     return n
+
+
+def run_overlap(seed: int, acc) -> int:
+    """two async calls in flight at once on separate connections (virtual loop, replies held back): the GetKey reply of the first call is
+    replaced by an unsealed one with the attacker's envelope while the other call runs - every interleaving with <= 2 deviations from
+    run-to-completion order. The victim must raise whatever the bystander does in between."""
+    import asyncio
+    from asyncio import events
+
+    import dpapi_ng
+    from mc import explorer
+
+    st = setup(seed)
+    n = [0]
+    for vop, bop in (("protect", "protect"), ("unprotect", "protect"), ("protect", "unprotect"), ("unprotect", "unprotect")):
+        for body in ("evil-other", "genuine"):
+
+            def body_fn(ch: explorer.Chooser, vop=vop, bop=bop, body=body):
+                dc = refdc.DC([st["rk"]], now=NOW, sec="scripted")
+                victim_conn: t.List[t.Any] = []
+
+                def tamper(conn, sealed, info):
+                    if not victim_conn:
+                        victim_conn.append(conn)
+                    if conn is not victim_conn[0]:
+                        return sealed
+                    return apply(("notrailer", body), sealed, info, st, vop, dc.getkey_calls[-1][0])
+
+                dc.tamper = tamper
+                loop = vloop.VirtualLoop()
+                kw = dict(server="dc", username="u", password="p", auth_protocol="ntlm")
+                started = [False, False]
+                current = [-1]
+                order: t.List[str] = []
+                with transport.network(dc, defer=True) as hub, secctx.scripted_client(lambda u, p, **k: secctx.ScriptedContext([b"C1"], 16)), seams.clock((NOW[0] * 1024 + NOW[1] * 32 + NOW[2]) * gkdi.B + 5):
+                    orig_open = hub.open_connection
+
+                    async def open_tagged(host=None, port=None, **k):
+                        r, wtr = await orig_open(host, port, **k)
+                        wtr.owner = asyncio.current_task().get_name()
+                        return r, wtr
+
+                    def coro(i):
+                        op = (vop, bop)[i]
+                        if op == "protect":
+                            return dpapi_ng.async_ncrypt_protect_secret(PT, SID, **kw)
+                        return dpapi_ng.async_ncrypt_unprotect_secret(st["blob"], **kw)
+
+                    gates: t.List[t.Any] = []
+
+                    async def gated(i):
+                        await gates[i]
+                        return await coro(i)
+
+                    def on_idle() -> bool:
+                        menu = []
+                        for i in ([current[0]] if current[0] >= 0 else []) + [x for x in (0, 1) if x != current[0]]:
+                            if not started[i]:
+                                menu.append((i, "start", None))
+                            else:
+                                for j, (wtr, _c) in enumerate(hub.pending):
+                                    if getattr(wtr, "owner", None) == f"T{i}":
+                                        menu.append((i, "deliver", j))
+                                        break
+                        if not menu:
+                            return False
+                        k_ = ch.choose(len(menu), ",".join(f"T{m[0]}:{m[1]}" for m in menu)) if len(menu) > 1 else 0
+                        i, what, arg = menu[k_]
+                        current[0] = i
+                        order.append(f"{what[0]}{i}")
+                        if what == "start":
+                            started[i] = True
+                            gates[i].set_result(None)
+                        else:
+                            hub.release(arg)
+                        return True
+
+                    loop.on_idle = on_idle
+                    old = events._get_running_loop()
+                    events._set_running_loop(loop)
+                    try:
+                        with seams.patched(asyncio, "open_connection", open_tagged):
+                            gates.extend(loop.create_future() for _ in range(2))
+                            tasks = [loop.create_task(gated(i), name=f"T{i}") for i in range(2)]
+                            status = "ok"
+                            try:
+                                while not all(tk.done() for tk in tasks):
+                                    if not loop._step():
+                                        status = "deadlock"
+                                        break
+                            except vloop.Deadlock:
+                                status = "deadlock"
+                            res = []
+                            for tk in tasks:
+                                if not tk.done():
+                                    res.append(("pending", None))
+                                    tk.cancel()
+                                elif tk.exception() is not None:
+                                    res.append(("exc", type(tk.exception()).__name__))
+                                else:
+                                    res.append(("ok", bytes(tk.result())))
+                    finally:
+                        events._set_running_loop(old)
+                        loop.shutdown()
+                return status, res, order, bool(victim_conn)
+
+            def on_exec(ch, r, vop=vop, bop=bop, body=body):
+                status, res, order, tampered = r
+                n[0] += 1
+                case = ["overlap", vop, bop, body, ch.choices]
+                acc.nt(("overlap", vop, bop, body, tuple(ch.choices)))
+                acc.set_add("overlap_orders", tuple(order))
+                if status != "ok":
+                    acc.violate("overlap." + status, case, {"order": order, "results": repr(res)[:200]}, size=len(ch.choices))
+                    return
+                # which task owned the tampered connection: the one whose GetKey reached the DC first
+                victims = [i for i, (st_, _v) in enumerate(res) if st_ != "ok"]
+                oks = [i for i, (st_, _v) in enumerate(res) if st_ == "ok"]
+                if tampered and len(oks) == 2:
+                    acc.violate("overlap.unsealed-reply-accepted", case, {"order": order, "results": [r_[0] for r_ in res]}, size=len(ch.choices))
+                for i in oks:
+                    op = (vop, bop)[i]
+                    v = res[i][1]
+                    good = v == PT if op == "unprotect" else False
+                    if op == "protect":
+                        try:
+                            good = cms.ref_decrypt(st["rk"], v) == PT
+                        except Exception:  # noqa: BLE001
+                            good = False
+                    if not good:
+                        acc.violate("overlap.wrong-result", case + [i], {"op": op, "order": order}, size=len(ch.choices))
+                acc.outcome(f"overlap:rejected={len(victims)}")
+
+            explorer.explore(body_fn, 2, on_exec)
+    return n[0]
 
 
 class RogueConn(refdc.Conn):
@@ -627,7 +776,7 @@ def run_rogue(seed: int, op: str, api: str, mode: str, sec: str, acc) -> None:
 
 
 def shards(tier: str, seed: int):
-    out = [["rogue"], ["stub-shapes"]]
+    out = [["rogue"], ["stub-shapes"], ["overlap"]]
     for api in ("sync", "async"):
         for sg in (True, False):
             for part in range(4):
@@ -644,6 +793,10 @@ def shards(tier: str, seed: int):
 
 def run_shard(shard, tier, seed, acc) -> None:
     worker_init()
+    if shard[0] == "overlap":
+        acc.ev(run_overlap(seed, acc))
+        acc.sample({"two async calls in flight": "the first GetKey reply is replaced by an unsealed one while the other call runs", "deviation_bound": 2})
+        return
     if shard[0] == "stub-shapes":
         acc.ev(run_stub_shapes(seed, acc))
         acc.sample({"request stub lengths": [0, 1, 15, 16, 17], "verification trailer": ["off", "isd"], "reply": ["genuine", "trailer stripped", "body flip", "signature flip"]})
@@ -712,6 +865,14 @@ def replay(case, seed, acc) -> None:
     acc.ev()
     if case[0] == "rogue":
         run_rogue(seed, case[1], case[2], case[3], case[4], acc)
+        return
+    if case[0] == "overlap":
+        run_overlap(seed, acc)
+        for k in list(acc.violations):
+            acc.violations[k] = [e for e in acc.violations[k] if e["case"][:5] == case[:5]]
+            if not acc.violations[k]:
+                del acc.violations[k]
+        acc.violation_count = sum(len(v) for v in acc.violations.values())
         return
     if case[0] == "stub-shape":
         run_stub_shapes(seed, acc)
